@@ -1,6 +1,7 @@
 package main
 
 import (
+	"fmt"
 	"go/ast"
 	"go/token"
 	"go/types"
@@ -233,6 +234,41 @@ func runC14(c *Ctx) {
 		nonNil := f.NilCheckEdges(func(e ast.Expr) bool { id, ok := e.(*ast.Ident); return ok && id.Name != "" && f.Info.TypeOf(id) != nil && types.Identical(types.Unalias(f.Info.TypeOf(id)), behavior) }, true)
 		w := f.search(searchSpec{avoidEdges: nonNil, target: func(n ast.Node) bool { return len(callAtoms) == 1 && n == callAtoms[0].N }})
 		c.Check(w == nil && len(nonNil) > 0, "nil-guard", "the behaviour is invoked only when non-nil", c.P.Pos(fn.Decl.Pos()), f.describe(w))
+	})
+
+	c.Rule("counter-coherent", func() {
+		// Len() (which UnBecomeStacked and the empty-stack tests rely on) must follow the linked list: every method of
+		// the stack that changes top also updates length on every path after the change — Push adds one on the
+		// CAS-success edge, Pop subtracts one on the CAS-success edge, Reset stores zero.
+		topF := c.Field("actor", "behaviorStack", "top")
+		lenF := c.Field("actor", "behaviorStack", "length")
+		n := 0
+		for _, fn := range c.methodsOf(c.Named("actor", "behaviorStack")) {
+			f := c.NewFlow(fn)
+			info := f.Info
+			writesTop := func(nd ast.Node) bool { _, k := atomicOnIn(info, nd, topF); return k == "StorePointer" || k == "CompareAndSwapPointer" || k == "SwapPointer" }
+			writesLen := func(nd ast.Node) bool { _, k := atomicOnIn(info, nd, lenF); return k == "AddUint64" || k == "StoreUint64" }
+			for _, a := range f.FindOnce(writesTop) {
+				n++
+				key := fn.String() + "/top-write-updates-length"
+				_, k := atomicOnIn(info, a.N, topF)
+				if k == "CompareAndSwapPointer" {
+					won := f.CondEdges(func(e ast.Expr) bool { return e == a.N.(ast.Expr) }, true)
+					if len(won) == 0 {
+						c.Undecided(key, "a successful change of top is followed by an update of length", c.P.Pos(a.N.Pos()), "the CAS result is not a branch condition")
+						continue
+					}
+					w := f.AfterEdgesMustPass(won, writesLen, nil)
+					c.Check(w == nil, key, "a successful change of top is followed, on every path, by an update of the length counter", c.P.Pos(a.N.Pos()), f.describe(w))
+				} else {
+					w := f.MustFollow([]*Atom{a}, writesLen, nil)
+					c.Check(w == nil, key, "a change of top is followed, on every path, by an update of the length counter", c.P.Pos(a.N.Pos()), f.describe(w))
+				}
+			}
+		}
+		if n < 3 {
+			c.Undecided("count", "Push, Pop and Reset change top", "-", fmt.Sprintf("found %d writes of top", n))
+		}
 	})
 
 	c.Rule("atomic-fields", func() {
